@@ -3814,7 +3814,9 @@ class ScoreVariant(object):
             # correspondences between objects (timepoints, notes, measures,
             # etc), in o_map
             o_map = {}
-            o_new = set()
+            # (a list, not a set: the references must be replaced in a
+            # reproducible order)
+            o_new = []
             tp = start
             while tp != end:
                 # make a new timepoint, corresponding to tp
@@ -3878,7 +3880,7 @@ class ScoreVariant(object):
                             setattr(o_copy, attr, list(getattr(o, attr)))
                     # add it to the set of new objects (for which the refs will
                     # be replaced)
-                    o_new.add(o_copy)
+                    o_new.append(o_copy)
                     # keep track of the correspondence between o and o_copy
                     o_map[o] = o_copy
                     # add the start of the new object to the part
